@@ -30,7 +30,8 @@ func worldOptsFor(prop string, t *rapid.T) WorldOpts {
 	case "C02", "C03", "C17":
 		o.MaxBuilds = 3
 		o.MaxMerges = 3
-		o.BigPct = 3
+		o.BigPct = 4
+		o.HugePct = 45
 	case "C04", "C11", "C16":
 		o.MaxBuilds = 3
 		o.MaxMerges = 2
